@@ -59,6 +59,7 @@ func checkC13(rep *core.Report) {
 	for _, p := range pipes {
 		if p.run != nil {
 			checkRunLoop(rep, r1, p)
+			checkQueuedBufferKept(prog, r1, p)
 		}
 		if p.worker != nil && p.recv != nil {
 			checkWorkerCounts(rep, r2, r3, p)
@@ -440,4 +441,51 @@ func checkStatsSnapshot(prog *core.Program, rr *core.RuleRun) {
 	if n == 0 {
 		rr.Undecided("status:snapshots", token.NoPos, "no status() snapshot with atomic loads found")
 	}
+}
+
+// checkQueuedBufferKept: in a receive loop, a buffer that is handed to the workers (it backs the queued message's body)
+// is not also returned to the pool in that iteration: ownership moves with the message, and the worker releases it.
+// A receive loop that "gives every buffer back" makes the next read overwrite a datagram that is still queued.
+func checkQueuedBufferKept(prog *core.Program, rr *core.RuleRun, p *pipeline) {
+	fn := p.run
+	if fn == nil || p.read == nil {
+		return
+	}
+	name := core.FuncName(fn)
+	loop := core.LoopOf(fn, p.read)
+	if loop == nil {
+		return
+	}
+	buf := p.read.Common().Args[len(p.read.Common().Args)-1] // the []byte read into
+	derives := func(v ssa.Value) bool {
+		sl := core.BackwardSlice(v, core.SliceOpts{})
+		return sl[buf] || v == buf
+	}
+	var sends, puts []ssa.Instruction
+	allInstrs(fn, func(ins ssa.Instruction) {
+		if !loop.Blocks[ins.Block()] {
+			return
+		}
+		switch x := ins.(type) {
+		case *ssa.Send:
+			if isUDPChan(x.Chan) && derives(x.X) {
+				sends = append(sends, x)
+			}
+		case *ssa.Call:
+			if g, op := poolOf(x); g != nil && op == "Put" && derives(x.Common().Args[1]) {
+				puts = append(puts, x)
+			}
+		}
+	})
+	bad := false
+	inIter := core.Walk{EdgeOK: func(b *ssa.BasicBlock, si int) bool { return b.Succs[si] != loop.Header }}
+	for _, s := range sends {
+		for _, pt := range puts {
+			if inIter.CanReach(s, pt) || inIter.CanReach(pt, s) {
+				bad = true
+			}
+		}
+	}
+	rr.Check(!bad, name+":queued-buffer-not-released", p.read.Pos(), fmt.Sprintf("%d queue send(s), %d release(s) of the read buffer, never both in one iteration", len(sends), len(puts)),
+		"the receive loop returns to the pool a buffer whose bytes it has just queued for the workers: the next datagram is read over one that is still waiting or being decoded, so one datagram is published several times and others never")
 }
